@@ -84,6 +84,8 @@ class Unit:
         self.rlimit = None
         self.external_auto = []
         self.needs_deps = False
+        self.dropped_hints = set()   # hint ids not spliced (failed / anchor lost / no longer type-check)
+        self.lost_hints = []
 
     # -- ids
     def _cid(self, text, fn, kind):
@@ -373,7 +375,8 @@ class Unit:
             elif cmd == 'suffix':
                 cid, t = self._cid(arg, cur.name, 'hint')
                 self.clauses[cid].kind = 'hint'
-                cur.suffix.append((cid, t))
+                if cid not in self.dropped_hints:
+                    cur.suffix.append((cid, t))
             elif cmd == 'loop':
                 m = re.match(r'(\d+)\s+(\w+)\s*(.*)$', arg, re.S)
                 nl, sub, rest = int(m.group(1)), m.group(2), m.group(3)
@@ -406,19 +409,23 @@ class Unit:
                 if not m:
                     raise Undecided('template: bad hint %r' % arg)
                 cid, t = self._cid(m.group(4), cur.name, 'hint')
-                cur.hints.append((cid, m.group(1), int(m.group(2)), json.loads(m.group(3)), t))
+                if cid not in self.dropped_hints:
+                    cur.hints.append((cid, m.group(1), int(m.group(2)), json.loads(m.group(3)), t))
             elif cmd == 'wrap':
                 m = re.match(r'(\d+)\s+("(?:[^"\\]|\\.)*")\s*::\s*(.*)$', arg, re.S)
                 cid, t = self._cid(m.group(3), cur.name, 'wrap')
-                cur.wraps.append((cid, int(m.group(1)), json.loads(m.group(2)), t))
+                if cid not in self.dropped_hints:
+                    cur.wraps.append((cid, int(m.group(1)), json.loads(m.group(2)), t))
             elif cmd == 'wrap_arm':
                 m = re.match(r'(\d+)\s+(\d+)\s*::\s*(.*)$', arg, re.S)
                 cid, t = self._cid(m.group(3), cur.name, 'wrap')
-                cur.arm_wraps.append((cid, int(m.group(1)), int(m.group(2)), t))
+                if cid not in self.dropped_hints:
+                    cur.arm_wraps.append((cid, int(m.group(1)), int(m.group(2)), t))
             elif cmd == 'wrap_tail':
                 m = re.match(r'(\d+)\s+("(?:[^"\\]|\\.)*")\s*::\s*(.*)$', arg, re.S)
                 cid, t = self._cid(m.group(3), cur.name, 'wrap')
-                cur.tail_wraps.append((cid, int(m.group(1)), json.loads(m.group(2)), t))
+                if cid not in self.dropped_hints:
+                    cur.tail_wraps.append((cid, int(m.group(1)), json.loads(m.group(2)), t))
             elif cmd == 'closure':
                 # closure <ordinal> <header> ;; requires [id] e ;; ensures [id] e
                 m = re.match(r'(\d+)\s+(.*)$', arg, re.S)
@@ -435,6 +442,7 @@ class Unit:
             sp = specs[key]
             if sp.clause_ids() or sp.ret or sp.prefix or sp.attrs or sp.loops or sp.extra_sig or sp.arm_wraps or sp.tail_wraps or sp.suffix:
                 text = splice_fn(text, sp)
+                self.lost_hints += sp.lost_hints
                 ext = any('external_body' in a for a in sp.attrs)
                 if not ext:
                     self.fns_under_contract.append(dict(unit=self.id, function=sp.name, file=rec.get('file'),
@@ -523,6 +531,7 @@ def analyse(unit, gen_path, gen_text, res):
             marks.setdefault(i, []).append(m.group(1))
     ranges = fn_ranges(gen_text)
     failed, panic, undecided, termination = {}, [], [], []
+    bad_hints = set()
     canary = False
     extracted_fns = set(f['function'] for f in unit.fns_under_contract)
     if res['timeout']:
@@ -536,6 +545,19 @@ def analyse(unit, gen_path, gen_text, res):
         rendered = d.get('rendered') or msg
         spans = d.get('spans', [])
         if d.get('code') or not VERIFICATION_MSG.search(msg):
+            # a compile error located on a spliced hint line: the hint no longer fits the code -> drop it and retry
+            hint_ids = []
+            for sp in spans:
+                if os.path.basename(sp.get('file_name', '')) != os.path.basename(gen_path):
+                    continue
+                for ln in range(sp['line_start'], sp['line_end'] + 1):
+                    for cid in marks.get(ln, []):
+                        c = unit.clauses.get(cid)
+                        if c is not None and c.kind in ('hint', 'wrap') and cid not in hint_ids:
+                            hint_ids.append(cid)
+            if hint_ids and not UNDECIDED_MSG.search(msg):
+                bad_hints.update(hint_ids)
+                continue
             if UNDECIDED_MSG.search(msg):
                 undecided.append('verus: ' + msg.split('\n')[0])
             else:
@@ -595,17 +617,16 @@ def analyse(unit, gen_path, gen_text, res):
             failed.setdefault(base, [])
             failed[base] += ['(proof step %s for this clause failed)\n%s' % (cid, m) for m in msgs]
         else:
-            others = [k for k in failed if unit.clauses.get(k) and unit.clauses[k].fn == c.fn and k != cid
-                      and unit.clauses[k].kind not in ('hint', 'wrap')]
-            if not others:
-                undecided.append('proof hint %s in %s no longer holds and no contract clause fails: %s' % (cid, c.fn, msgs[0][:300]))
+            # an intermediate proof step that no longer holds: Verus assumed it afterwards, so nothing proved after
+            # it can be trusted.  It is dropped and the unit is re-verified without it (run_unit).
+            bad_hints.add(cid)
     js = res['js']
     if js is None and not res['timeout']:
         undecided.append('verus produced no JSON (rc=%s): %s' % (res['rc'], res['stderr'][:600]))
     vr = (js or {}).get('verification-results', {})
     if vr.get('encountered-vir-error'):
         undecided.append('verus vir error: ' + res['stderr'][:600])
-    return dict(failed=failed, panic=panic, undecided=undecided, canary=canary, termination=termination,
+    return dict(failed=failed, panic=panic, undecided=undecided, canary=canary, termination=termination, bad_hints=bad_hints,
                 verified=vr.get('verified'), errors=vr.get('errors'))
 
 
@@ -658,24 +679,38 @@ def run_unit(uid, tier='quick', repo=REPO, keep=None, seed=0):
              errors=None, lemmas={}, has_replay=False, primary=None, external_auto=[])
     scratch = tempfile.mkdtemp(prefix='vx-%s-' % uid)
     try:
-        try:
-            gen = u.generate()
-        except LostAnchor as e:
-            r.update(status='undecided', notes=['lost anchor: %s' % e], props=u.props, primary=u.primary)
-            return r
-        except Undecided as e:
-            r.update(status='undecided', notes=['%s' % e], props=u.props, primary=u.primary)
-            return r
-        gen_path = os.path.join(scratch, 'gen_%s.rs' % uid)
-        open(gen_path, 'w').write(gen)
-        if keep:
-            os.makedirs(keep, exist_ok=True)
-            shutil.copy(gen_path, os.path.join(keep, 'gen_%s.rs' % uid))
-        rl = u.rlimit or 30
-        if tier == 'thorough':
-            rl *= 4
-        res = run_verus(gen_path, u, rl)
-        an = analyse(u, gen_path, gen, res)
+        dropped = set()
+        passes = 0
+        while True:
+            passes += 1
+            u = Unit(uid, repo)
+            u.dropped_hints = set(dropped)
+            try:
+                gen = u.generate()
+            except LostAnchor as e:
+                r.update(status='undecided', notes=['lost anchor: %s' % e], props=u.props, primary=u.primary)
+                return r
+            except Undecided as e:
+                r.update(status='undecided', notes=['%s' % e], props=u.props, primary=u.primary)
+                return r
+            gen_path = os.path.join(scratch, 'gen_%s.rs' % uid)
+            open(gen_path, 'w').write(gen)
+            if keep:
+                os.makedirs(keep, exist_ok=True)
+                shutil.copy(gen_path, os.path.join(keep, 'gen_%s.rs' % uid))
+            rl = u.rlimit or 30
+            if tier == 'thorough':
+                rl *= 4
+            res = run_verus(gen_path, u, rl)
+            an = analyse(u, gen_path, gen, res)
+            new_bad = set(an['bad_hints']) - dropped
+            if new_bad and passes < 8:
+                dropped |= new_bad
+                continue
+            break
+        r['dropped_hints'] = sorted(dropped)
+        r['lost_hints'] = sorted(set(u.lost_hints))
+        r['passes'] = passes
         r.update(props=u.props, primary=u.primary, cmd=res['cmd'], verified=an['verified'], errors=an['errors'],
                  failed=an['failed'], panic=an['panic'], termination=an['termination'],
                  clauses={c.id: dict(kind=c.kind, text=c.text, fn=c.fn, props=c.props(u.primary)) for c in u.clauses.values()},
